@@ -21,6 +21,7 @@ import (
 	"math/rand"
 	"strconv"
 	"strings"
+	"unicode"
 
 	"go.flow.arcalot.io/pluginsdk/schema"
 	"verif/harness/sup"
@@ -126,6 +127,10 @@ func getDef(id string) *defT {
 	case "g73":
 		// regexp metacharacters in names
 		return mk([4]string{"a.b", "a.b", "a+", "a+s"}, []int64{7, 3}, [][4]string{{"(x)", "(x)", "x|y", "x|ys"}, {"[z]", "[z]", "z*", "z*s"}})
+	case "gcs":
+		// two units whose names differ only in letter case
+		return mk([4]string{"mW", "mW", "milliwatt", "milliwatts"}, []int64{1000000, 1000},
+			[][4]string{{"MW", "MW", "Megawatt", "Megawatts"}, {"W", "W", "watt", "watts"}})
 	case "gk":
 		return mk([4]string{"g", "g", "gram", "grams"}, []int64{1000000, 1000, 10, 2},
 			[][4]string{{"t", "t", "tonne", "tonnes"}, {"kg", "kg", "kilo", "kilos"}, {"dag", "dag", "deca", "decas"}, {"dg", "dg", "double", "doubles"}})
@@ -373,6 +378,60 @@ func runNearMiss(c caseT, d *defT, r *resT) {
 			r.miss("float_schema_unserialize", "accepts_malformed", c, map[string]any{"text": txt, "got": fmt.Sprint(v)})
 		}
 		r.Evals += 4
+	}
+	// unit names are matched as declared: another letter case of a declared name is not a unit (unless that
+	// spelling is itself declared)
+	declared := map[string]bool{}
+	for _, n := range d.names {
+		for _, x := range n {
+			declared[x] = true
+		}
+	}
+	swap := func(s string) string {
+		b := []rune(s)
+		for i, c := range b {
+			if unicode.IsUpper(c) {
+				b[i] = unicode.ToLower(c)
+			} else {
+				b[i] = unicode.ToUpper(c)
+			}
+		}
+		return string(b)
+	}
+	seen := map[string]bool{}
+	for _, n := range d.names {
+		for _, x := range n {
+			for _, v := range []string{strings.ToUpper(x), strings.ToLower(x), swap(x)} {
+				if v == "" || declared[v] || seen[v] {
+					continue
+				}
+				seen[v] = true
+				for _, txt := range []string{"2" + v, "2 " + v} {
+					if got, err := d.units.ParseInt(txt); err == nil {
+						r.miss("parse_int", "accepts_malformed", c, map[string]any{"text": txt, "got": got, "why": "letter case"})
+					}
+					if got, err := schema.NewIntSchema(nil, nil, d.units).Unserialize(txt); err == nil {
+						r.miss("int_schema_unserialize", "accepts_malformed", c, map[string]any{"text": txt, "got": fmt.Sprint(got), "why": "letter case"})
+					}
+					r.Evals += 2
+				}
+			}
+		}
+	}
+	// an integer quantity has integer counts: a count with a decimal point is not one, however it rounds
+	base := d.names[len(d.names)-1][0]
+	texts := []string{"5.0" + base, "9007199254740993.0" + base, "9007199254740992.5" + base}
+	if len(d.mults) > 0 {
+		texts = append(texts, "1"+d.names[0][0]+"1.0"+base, "1"+d.names[0][0]+" 0.0"+base)
+	}
+	for _, txt := range texts {
+		if got, err := d.units.ParseInt(txt); err == nil {
+			r.miss("parse_int", "accepts_malformed", c, map[string]any{"text": txt, "got": got, "why": "decimal count"})
+		}
+		if got, err := schema.NewIntSchema(nil, nil, d.units).Unserialize(txt); err == nil {
+			r.miss("int_schema_unserialize", "accepts_malformed", c, map[string]any{"text": txt, "got": fmt.Sprint(got), "why": "decimal count"})
+		}
+		r.Evals += 2
 	}
 }
 
